@@ -23,6 +23,11 @@ static GLOBAL_ON: std::sync::atomic::AtomicBool = std::sync::atomic::AtomicBool:
 static GLOBAL_BUF: std::sync::Mutex<Vec<u8>> = std::sync::Mutex::new(Vec::new());
 static GLOBAL_TIMED: std::sync::Mutex<Vec<(std::time::Instant, String)>> = std::sync::Mutex::new(Vec::new());
 
+/// number of captured records containing `needle` so far (global capture only)
+pub fn count_global_timed(needle: &str) -> usize {
+    GLOBAL_TIMED.lock().unwrap().iter().filter(|r| r.1.contains(needle)).count()
+}
+
 /// formatted records with the instant at which they were written (global capture only)
 pub fn take_global_timed() -> Vec<(std::time::Instant, String)> {
     std::mem::take(&mut *GLOBAL_TIMED.lock().unwrap())
